@@ -421,6 +421,7 @@ func PutInsertStatement(stmt *InsertStatement) {
 	stmt.TableName = ""
 
 	// Return to pool
+	*stmt = InsertStatement{Columns: stmt.Columns, Values: stmt.Values} // every other field back to its zero value
 	insertStmtPool.Put(stmt)
 }
 
@@ -450,6 +451,7 @@ func PutUpdateStatement(stmt *UpdateStatement) {
 	stmt.TableName = ""
 
 	// Return to pool
+	*stmt = UpdateStatement{Assignments: stmt.Assignments} // every other field back to its zero value
 	updateStmtPool.Put(stmt)
 }
 
@@ -472,6 +474,7 @@ func PutDeleteStatement(stmt *DeleteStatement) {
 	stmt.TableName = ""
 
 	// Return to pool
+	*stmt = DeleteStatement{} // every other field back to its zero value
 	deleteStmtPool.Put(stmt)
 }
 
@@ -495,6 +498,7 @@ func PutUpdateExpression(expr *UpdateExpression) {
 	expr.Value = nil
 
 	// Return to pool
+	*expr = UpdateExpression{} // every other field back to its zero value
 	updateExprPool.Put(expr)
 }
 
@@ -561,6 +565,7 @@ func PutSelectStatement(stmt *SelectStatement) {
 	stmt.For = nil
 
 	// Return to pool
+	*stmt = SelectStatement{Columns: stmt.Columns, OrderBy: stmt.OrderBy} // every other field back to its zero value
 	selectStmtPool.Put(stmt)
 }
 
@@ -575,6 +580,7 @@ func PutIdentifier(ident *Identifier) {
 		return
 	}
 	ident.Name = ""
+	*ident = Identifier{} // every other field back to its zero value
 	identifierPool.Put(ident)
 }
 
@@ -593,6 +599,7 @@ func PutBinaryExpression(expr *BinaryExpression) {
 	expr.Left = nil
 	expr.Right = nil
 	expr.Operator = ""
+	*expr = BinaryExpression{} // every other field back to its zero value
 	binaryExprPool.Put(expr)
 }
 
@@ -631,6 +638,7 @@ func PutLiteralValue(lit *LiteralValue) {
 	lit.Type = ""
 
 	// Return to pool
+	*lit = LiteralValue{} // every other field back to its zero value
 	literalValuePool.Put(lit)
 }
 
@@ -730,6 +738,7 @@ func PutExpression(expr Expression) {
 		switch e := current.(type) {
 		case *Identifier:
 			e.Name = ""
+			*e = Identifier{} // every other field back to its zero value
 			identifierPool.Put(e)
 
 		case *BinaryExpression:
@@ -742,11 +751,13 @@ func PutExpression(expr Expression) {
 			e.Left = nil
 			e.Right = nil
 			e.Operator = ""
+			*e = BinaryExpression{} // every other field back to its zero value
 			binaryExprPool.Put(e)
 
 		case *LiteralValue:
 			e.Value = nil
 			e.Type = ""
+			*e = LiteralValue{} // every other field back to its zero value
 			literalValuePool.Put(e)
 
 		case *FunctionCall:
@@ -761,6 +772,7 @@ func PutExpression(expr Expression) {
 			e.Over = nil
 			e.Distinct = false
 			e.Filter = nil
+			*e = FunctionCall{Arguments: e.Arguments} // every other field back to its zero value
 			functionCallPool.Put(e)
 
 		case *CaseExpression:
@@ -781,6 +793,7 @@ func PutExpression(expr Expression) {
 			e.Value = nil
 			e.WhenClauses = e.WhenClauses[:0]
 			e.ElseClause = nil
+			*e = CaseExpression{WhenClauses: e.WhenClauses} // every other field back to its zero value
 			caseExprPool.Put(e)
 
 		case *BetweenExpression:
@@ -797,6 +810,7 @@ func PutExpression(expr Expression) {
 			e.Lower = nil
 			e.Upper = nil
 			e.Not = false
+			*e = BetweenExpression{} // every other field back to its zero value
 			betweenExprPool.Put(e)
 
 		case *InExpression:
@@ -813,10 +827,12 @@ func PutExpression(expr Expression) {
 			e.List = e.List[:0]
 			e.Subquery = nil
 			e.Not = false
+			*e = InExpression{List: e.List} // every other field back to its zero value
 			inExprPool.Put(e)
 
 		case *SubqueryExpression:
 			e.Subquery = nil
+			*e = SubqueryExpression{} // every other field back to its zero value
 			subqueryExprPool.Put(e)
 
 		case *CastExpression:
@@ -825,10 +841,12 @@ func PutExpression(expr Expression) {
 			}
 			e.Expr = nil
 			e.Type = ""
+			*e = CastExpression{} // every other field back to its zero value
 			castExprPool.Put(e)
 
 		case *IntervalExpression:
 			e.Value = ""
+			*e = IntervalExpression{} // every other field back to its zero value
 			intervalExprPool.Put(e)
 
 		case *ArraySubscriptExpression:
@@ -842,6 +860,7 @@ func PutExpression(expr Expression) {
 			}
 			e.Array = nil
 			e.Indices = e.Indices[:0]
+			*e = ArraySubscriptExpression{Indices: e.Indices} // every other field back to its zero value
 			arraySubscriptExprPool.Put(e)
 
 		case *ArraySliceExpression:
@@ -857,10 +876,12 @@ func PutExpression(expr Expression) {
 			e.Array = nil
 			e.Start = nil
 			e.End = nil
+			*e = ArraySliceExpression{} // every other field back to its zero value
 			arraySliceExprPool.Put(e)
 
 		case *ExistsExpression:
 			e.Subquery = nil
+			*e = ExistsExpression{} // every other field back to its zero value
 			existsExprPool.Put(e)
 
 		case *AnyExpression:
@@ -870,6 +891,7 @@ func PutExpression(expr Expression) {
 			e.Expr = nil
 			e.Subquery = nil
 			e.Operator = ""
+			*e = AnyExpression{} // every other field back to its zero value
 			anyExprPool.Put(e)
 
 		case *AllExpression:
@@ -879,6 +901,7 @@ func PutExpression(expr Expression) {
 			e.Expr = nil
 			e.Subquery = nil
 			e.Operator = ""
+			*e = AllExpression{} // every other field back to its zero value
 			allExprPool.Put(e)
 
 		case *ListExpression:
@@ -889,6 +912,7 @@ func PutExpression(expr Expression) {
 				e.Values[i] = nil
 			}
 			e.Values = e.Values[:0]
+			*e = ListExpression{Values: e.Values} // every other field back to its zero value
 			listExprPool.Put(e)
 
 		case *TupleExpression:
@@ -899,6 +923,7 @@ func PutExpression(expr Expression) {
 				e.Expressions[i] = nil
 			}
 			e.Expressions = e.Expressions[:0]
+			*e = TupleExpression{Expressions: e.Expressions} // every other field back to its zero value
 			tupleExprPool.Put(e)
 
 		case *ArrayConstructorExpression:
@@ -910,6 +935,7 @@ func PutExpression(expr Expression) {
 			}
 			e.Elements = e.Elements[:0]
 			e.Subquery = nil
+			*e = ArrayConstructorExpression{Elements: e.Elements} // every other field back to its zero value
 			arrayConstructorPool.Put(e)
 
 		case *UnaryExpression:
@@ -918,6 +944,7 @@ func PutExpression(expr Expression) {
 			}
 			e.Expr = nil
 			e.Operator = 0 // UnaryOperator is int type
+			*e = UnaryExpression{} // every other field back to its zero value
 			unaryExprPool.Put(e)
 
 		case *ExtractExpression:
@@ -926,6 +953,7 @@ func PutExpression(expr Expression) {
 			}
 			e.Field = ""
 			e.Source = nil
+			*e = ExtractExpression{} // every other field back to its zero value
 			extractExprPool.Put(e)
 
 		case *PositionExpression:
@@ -937,6 +965,7 @@ func PutExpression(expr Expression) {
 			}
 			e.Substr = nil
 			e.Str = nil
+			*e = PositionExpression{} // every other field back to its zero value
 			positionExprPool.Put(e)
 
 		case *SubstringExpression:
@@ -952,6 +981,7 @@ func PutExpression(expr Expression) {
 			e.Str = nil
 			e.Start = nil
 			e.Length = nil
+			*e = SubstringExpression{} // every other field back to its zero value
 			substringExprPool.Put(e)
 
 		case *AliasedExpression:
@@ -960,6 +990,7 @@ func PutExpression(expr Expression) {
 			}
 			e.Expr = nil
 			e.Alias = ""
+			*e = AliasedExpression{} // every other field back to its zero value
 			aliasedExprPool.Put(e)
 
 		// Default case - expression type not pooled, just ignore
@@ -990,6 +1021,7 @@ func PutFunctionCall(fc *FunctionCall) {
 	fc.Over = nil
 	fc.Distinct = false
 	fc.Filter = nil
+	*fc = FunctionCall{Arguments: fc.Arguments} // every other field back to its zero value
 	functionCallPool.Put(fc)
 }
 
@@ -1014,6 +1046,7 @@ func PutCaseExpression(ce *CaseExpression) {
 	ce.WhenClauses = ce.WhenClauses[:0]
 	PutExpression(ce.ElseClause)
 	ce.ElseClause = nil
+	*ce = CaseExpression{WhenClauses: ce.WhenClauses} // every other field back to its zero value
 	caseExprPool.Put(ce)
 }
 
@@ -1034,6 +1067,7 @@ func PutBetweenExpression(be *BetweenExpression) {
 	be.Lower = nil
 	be.Upper = nil
 	be.Not = false
+	*be = BetweenExpression{} // every other field back to its zero value
 	betweenExprPool.Put(be)
 }
 
@@ -1058,6 +1092,7 @@ func PutInExpression(ie *InExpression) {
 	ie.List = ie.List[:0]
 	ie.Subquery = nil
 	ie.Not = false
+	*ie = InExpression{List: ie.List} // every other field back to its zero value
 	inExprPool.Put(ie)
 }
 
@@ -1078,6 +1113,7 @@ func PutTupleExpression(te *TupleExpression) {
 		te.Expressions[i] = nil
 	}
 	te.Expressions = te.Expressions[:0]
+	*te = TupleExpression{Expressions: te.Expressions} // every other field back to its zero value
 	tupleExprPool.Put(te)
 }
 
@@ -1100,6 +1136,7 @@ func PutArrayConstructor(ac *ArrayConstructorExpression) {
 	}
 	ac.Elements = ac.Elements[:0]
 	ac.Subquery = nil
+	*ac = ArrayConstructorExpression{Elements: ac.Elements} // every other field back to its zero value
 	arrayConstructorPool.Put(ac)
 }
 
@@ -1114,6 +1151,7 @@ func PutSubqueryExpression(se *SubqueryExpression) {
 		return
 	}
 	se.Subquery = nil
+	*se = SubqueryExpression{} // every other field back to its zero value
 	subqueryExprPool.Put(se)
 }
 
@@ -1130,6 +1168,7 @@ func PutCastExpression(ce *CastExpression) {
 	PutExpression(ce.Expr)
 	ce.Expr = nil
 	ce.Type = ""
+	*ce = CastExpression{} // every other field back to its zero value
 	castExprPool.Put(ce)
 }
 
@@ -1144,6 +1183,7 @@ func PutIntervalExpression(ie *IntervalExpression) {
 		return
 	}
 	ie.Value = ""
+	*ie = IntervalExpression{} // every other field back to its zero value
 	intervalExprPool.Put(ie)
 }
 
@@ -1160,6 +1200,7 @@ func PutAliasedExpression(ae *AliasedExpression) {
 	PutExpression(ae.Expr)
 	ae.Expr = nil
 	ae.Alias = ""
+	*ae = AliasedExpression{} // every other field back to its zero value
 	aliasedExprPool.Put(ae)
 }
 
@@ -1185,6 +1226,7 @@ func PutArraySubscriptExpression(ase *ArraySubscriptExpression) {
 		}
 	}
 	ase.Indices = ase.Indices[:0] // Clear slice but keep capacity
+	*ase = ArraySubscriptExpression{} // every other field back to its zero value
 	arraySubscriptExprPool.Put(ase)
 }
 
@@ -1212,5 +1254,6 @@ func PutArraySliceExpression(ase *ArraySliceExpression) {
 		PutExpression(ase.End)
 		ase.End = nil
 	}
+	*ase = ArraySliceExpression{} // every other field back to its zero value
 	arraySliceExprPool.Put(ase)
 }
